@@ -66,6 +66,16 @@ fn all() {
     maybe("c05_full::check_w", || crate::h_check::c05_check_full(0));
     maybe("c05_full::check_b", || crate::h_check::c05_check_full(1));
     maybe("c05_full::terminal", || crate::h_engine::c11_terminal());
+    maybe("c06_occ::w_p", || crate::h_zobrist::c06_occ(P, 0));
+    maybe("c06_occ::b_p", || crate::h_zobrist::c06_occ(P, 1));
+    maybe("c06_occ::w_n", || crate::h_zobrist::c06_occ(N, 0));
+    maybe("c06_occ::b_n", || crate::h_zobrist::c06_occ(N, 1));
+    maybe("c06_occ::w_b", || crate::h_zobrist::c06_occ(B, 0));
+    maybe("c06_occ::b_b", || crate::h_zobrist::c06_occ(B, 1));
+    maybe("c06_occ::w_r", || crate::h_zobrist::c06_occ(R, 0));
+    maybe("c06_occ::b_r", || crate::h_zobrist::c06_occ(R, 1));
+    maybe("c06_occ::w_q", || crate::h_zobrist::c06_occ(Q, 0));
+    maybe("c06_occ::b_q", || crate::h_zobrist::c06_occ(Q, 1));
     maybe("c06_lemma::zero_rows", || crate::h_zobrist::c06_zero_rows());
     maybe("c06_lemma::linear_p", || crate::h_zobrist::c06_linear(P, 1));
     maybe("c06_lemma::linear3_p", || crate::h_zobrist::c06_linear(P, 2));
@@ -98,6 +108,11 @@ fn all() {
     maybe("c11::eval1_pnb", || crate::h_engine::c11_eval(1, 0b001110));
     maybe("c11::eval1_rq", || crate::h_engine::c11_eval(1, 0b110000));
     maybe("c11::eval2_p", || crate::h_engine::c11_eval(2, 0b000010));
+    maybe("c11::eval2_n", || crate::h_engine::c11_eval(2, 0b000100));
+    maybe("c11::eval2_b", || crate::h_engine::c11_eval(2, 0b001000));
+    maybe("c11::eval2_r", || crate::h_engine::c11_eval(2, 0b010000));
+    maybe("c11::eval2_q", || crate::h_engine::c11_eval(2, 0b100000));
+    maybe("c11::eval3_p", || crate::h_engine::c11_eval(3, 0b000010));
     maybe("c11::factor", || crate::h_engine::c11_factor());
     maybe("c11::terminal", || crate::h_engine::c11_terminal());
     maybe("c11::mate_distance", || crate::h_engine::c11_mate_distance());
@@ -105,6 +120,8 @@ fn all() {
     maybe("c15::square", || crate::h_uci::c15_square());
     maybe("c15::square_text", || crate::h_uci::c15_square_text());
     maybe("c15::roundtrip", || crate::h_uci::c15_roundtrip());
+    maybe("c15::uci_text", || crate::h_uci::c13_uci_text());
+    maybe("c15::text_parts", || crate::h_uci::c13_text_parts());
     maybe("c15::go_tokens", || crate::h_cmd::c15_go_tokens());
     maybe("c15::numbers", || crate::h_cmd::c15_numbers());
     maybe("c15::searchmoves_0", || crate::h_cmd::c15_searchmoves(0));
